@@ -106,3 +106,43 @@ Proof.
   intros H. unfold all256. apply in_map_iff. exists (N.to_nat b). split; [lia|].
   apply in_seq. lia.
 Qed.
+
+(* --- receivers --------------------------------------------------------------
+   WriteByte / UnmarshalJSON / From are methods on a pointer: they run on a
+   receiver that already holds a value.  The model of a method takes the OLD
+   value and performs the method's assignments one by one; that the result does
+   not depend on the old value is a theorem (Proofs/FlagsProofs.v), and the
+   harness decodes into NON-ZERO receivers to tie it. *)
+Definition esm_set_mode (e : esm) (x : N) : esm := {| e_mode := x; e_type := e_type e; e_udhi := e_udhi e; e_reply := e_reply e |}.
+Definition esm_set_type (e : esm) (x : N) : esm := {| e_mode := e_mode e; e_type := x; e_udhi := e_udhi e; e_reply := e_reply e |}.
+Definition esm_set_udhi (e : esm) (x : bool) : esm := {| e_mode := e_mode e; e_type := e_type e; e_udhi := x; e_reply := e_reply e |}.
+Definition esm_set_reply (e : esm) (x : bool) : esm := {| e_mode := e_mode e; e_type := e_type e; e_udhi := e_udhi e; e_reply := x |}.
+(* (e *ESMClass) WriteByte(c): four assignments *)
+Definition esm_write (e0 : esm) (c : N) : esm :=
+  let e1 := esm_set_mode e0 (N.land c 3) in
+  let e2 := esm_set_type e1 (N.land (N.shiftr c 2) 15) in
+  let e3 := esm_set_udhi e2 (N.land (N.shiftr c 6) 1 =? 1) in
+  esm_set_reply e3 (N.land (N.shiftr c 7) 1 =? 1).
+(* what a WriteByte that ORs into the receiver (|=) would compute: the variant the histories exclude *)
+Definition esm_write_or (e0 : esm) (c : N) : esm :=
+  {| e_mode := N.lor (e_mode e0) (N.land c 3); e_type := N.lor (e_type e0) (N.land (N.shiftr c 2) 15);
+     e_udhi := e_udhi e0 || (N.land (N.shiftr c 6) 1 =? 1); e_reply := e_reply e0 || (N.land (N.shiftr c 7) 1 =? 1) |}.
+
+Definition regdel_write (r0 : regdel) (c : N) : regdel :=
+  let r1 := {| r_mc := N.land c 3; r_sme := r_sme r0; r_inter := r_inter r0; r_rsv := r_rsv r0 |} in
+  let r2 := {| r_mc := r_mc r1; r_sme := N.land (N.shiftr c 2) 3; r_inter := r_inter r1; r_rsv := r_rsv r1 |} in
+  let r3 := {| r_mc := r_mc r2; r_sme := r_sme r2; r_inter := N.land (N.shiftr c 4) 1 =? 1; r_rsv := r_rsv r2 |} in
+  {| r_mc := r_mc r3; r_sme := r_sme r3; r_inter := r_inter r3; r_rsv := N.land (N.shiftr c 5) 7 |}.
+
+(* (v *InterfaceVersion) UnmarshalJSON(data): on an error *v keeps its old value; otherwise *v = … *)
+Definition ifver_unmarshal (v0 : N) (s : bytes) : N * bool :=
+  match ifver_of_json s with Some v => (v, true) | None => (v0, false) end.
+
+(* every normalised field value of the two structs (the finite domain of "encode, then decode") *)
+Definition bools : list bool := [false; true].
+Definition all_esm : list esm :=            (* in the order of their octets *)
+  flat_map (fun r => flat_map (fun u => flat_map (fun t => map (fun m =>
+    {| e_mode := m; e_type := t; e_udhi := u; e_reply := r |}) (map N.of_nat (seq 0 4))) (map N.of_nat (seq 0 16))) bools) bools.
+Definition all_regdel : list regdel :=
+  flat_map (fun r => flat_map (fun i => flat_map (fun s => map (fun m =>
+    {| r_mc := m; r_sme := s; r_inter := i; r_rsv := r |}) (map N.of_nat (seq 0 4))) (map N.of_nat (seq 0 4))) bools) (map N.of_nat (seq 0 8)).
